@@ -7,7 +7,7 @@ from ..common import Sub
 from ..e1 import engine
 
 RULE = ("(timed) histories executed inside one computation on a round clock (one harness batch kind; a round = one flush): caller tasks wait w rounds, then "
-        "call key k of a deduplicated callable (function / method on instance 1 or 2 / static method) with a spelling (positional / keyword / explicit default) "
+        "call key k of a deduplicated callable (function / a second function with the same qualified name / method on a truthy or a falsy instance / static method) with a spelling (positional / keyword / explicit default) "
         "or call dirty(k); bodies last r(k) rounds and optionally fail. (toplevel) histories of t = f.asynq(k), t.value(), dirty(k) outside any task. "
         "Oracle: reference in-flight table. non-trivial = a second call arrives strictly between the first call's start and completion, or a call follows "
         "dirty() while the dirtied task is still in flight, or a call follows completion; distinct = distinct case JSON")
@@ -19,7 +19,7 @@ class Boom(Exception):
     pass
 
 
-VARIANTS = ["fn", "m1", "m2", "static"]
+VARIANTS = ["fn", "twin", "m1", "m2", "static"]
 SPELL = ["pos", "kw", "pos+default", "kw+default", "pos+kwonly-default", "kw+all"]
 
 
@@ -27,7 +27,7 @@ SPELL = ["pos", "kw", "pos+default", "kw+default", "pos+kwonly-default", "kw+all
 KEYVAL = [-1, -2]
 
 
-def make_targets(runs, dur, fails, item, reenter=(False, False), self_dirty=(False, False)):
+def make_targets(runs, dur, fails, item, reenter=(False, False), self_dirty=(False, False), inner_catch=(False, False)):
     from asynq import asynq as A
     from asynq.tools import deduplicate
     inside = {}
@@ -50,20 +50,35 @@ def make_targets(runs, dur, fails, item, reenter=(False, False), self_dirty=(Fal
                 holder[tag].asynq(kv).value()
             finally:
                 inside[(tag, k)] = False
+        if inner_catch[k]:
+            # the body handles a failed dependency and carries on (an exception is thrown into the generator, which then blocks again)
+            from asynq.futures import ErrorFuture
+            try:
+                yield ErrorFuture(Boom(("inner", tag, k)))
+            except Boom:
+                pass
         for _ in range(dur[k]):
             yield item()
         if fails[k]:
             raise Boom((tag, k, n))
         return [tag, k, n]
 
-    @deduplicate()
-    @A()
-    def fn(k, extra=7, *, fresh=False):
-        return (yield from body("fn", k))
+    def factory(tag):
+        # "fn" and "twin" are two functions with one name, module and qualified name
+        @deduplicate()
+        @A()
+        def fn(k, extra=7, *, fresh=False):
+            return (yield from body(tag, k))
+        return fn
+    fn, twin = factory("fn"), factory("twin")
 
     class C(object):
         def __init__(self, name):
             self.name = name
+
+        def __bool__(self):
+            # instance 2 is falsy (an empty container-like object)
+            return self.name != "m2"
 
         @deduplicate()
         @A()
@@ -77,7 +92,7 @@ def make_targets(runs, dur, fails, item, reenter=(False, False), self_dirty=(Fal
             return (yield from body("static", k))
 
     i1, i2 = C("m1"), C("m2")
-    holder.update({"fn": fn, "m1": i1.m, "m2": i2.m, "static": C.s})
+    holder.update({"fn": fn, "twin": twin, "m1": i1.m, "m2": i2.m, "static": C.s})
     return dict(holder), (i1, i2)
 
 
@@ -114,13 +129,14 @@ def call_dirty(target, k, spell):
 # ---------------------------------------------------------------------------------------------------
 
 def strat_timed(tier):
-    ev = st.tuples(st.integers(0, 6), st.sampled_from(["call", "call", "call", "dirty"]), st.sampled_from(["fn", "fn", "m1", "m1", "m2", "static"]),
+    ev = st.tuples(st.integers(0, 6), st.sampled_from(["call", "call", "call", "dirty"]), st.sampled_from(["fn", "fn", "twin", "m1", "m1", "m2", "m2", "static"]),
                    st.integers(0, 1), st.sampled_from(SPELL)).map(list)
     return st.fixed_dictionaries({"events": st.lists(ev, min_size=2, max_size=8 if tier == "quick" else 14),
                                   "dur": st.lists(st.sampled_from([1, 2, 2, 3, 4]), min_size=2, max_size=2),
                                   "fails": st.lists(st.sampled_from([False, False, True]), min_size=2, max_size=2),
                                   "reenter": st.lists(st.sampled_from([False, False, True]), min_size=2, max_size=2),
-                                  "self_dirty": st.lists(st.sampled_from([False, False, False, True]), min_size=2, max_size=2)})
+                                  "self_dirty": st.lists(st.sampled_from([False, False, False, True]), min_size=2, max_size=2),
+                                  "inner_catch": st.lists(st.sampled_from([False, False, True]), min_size=2, max_size=2)})
 
 
 def check_timed(case, ctx):
@@ -130,13 +146,14 @@ def check_timed(case, ctx):
     evs, dur, fails = case["events"], case["dur"], case["fails"]
     reenter = case.get("reenter", [False, False])
     self_dirty = case.get("self_dirty", [False, False])
+    inner_catch = case.get("inner_catch", [False, False])
     runs = collections.Counter()
     uid = [0]
 
     def item():
         uid[0] += 1
         return engine.HItem(env, "a", 0, "ok", uid[0])
-    targets, keepalive = make_targets(runs, dur, fails, item, reenter, self_dirty)
+    targets, keepalive = make_targets(runs, dur, fails, item, reenter, self_dirty, inner_catch)
     obs = {}
 
     @A()
@@ -174,7 +191,7 @@ def check_timed(case, ctx):
     members = collections.defaultdict(list)
 
     def bad(clause, msg):
-        viol.append(("C12." + clause, "events %r, body rounds %r, fails %r, body re-enters itself %r, body dirties its own key %r: %s" % (evs, dur, fails, reenter, self_dirty, msg)))
+        viol.append(("C12." + clause, "events %r, body rounds %r, fails %r, body re-enters itself %r, body dirties its own key %r, body first catches a failed dependency %r: %s" % (evs, dur, fails, reenter, self_dirty, inner_catch, msg)))
 
     for i in order:
         t, kind, var, k, spell = evs[i]
@@ -244,6 +261,9 @@ def check_timed(case, ctx):
         ctx.label(c, c in classes)
     ctx.label("tie", ties > 0)
     ctx.label("body-dirties-own-key", "body-dirties-own-key" in classes)
+    ctx.label("body-catches-failed-dependency-then-blocks", any(inner_catch[evs[i][3]] for i in order if evs[i][1] == "call"))
+    ctx.label("falsy-instance", any(evs[i][2] == "m2" for i in order))
+    ctx.label("same-named-functions", {"fn", "twin"} <= set(evs[i][2] for i in order))
     ctx.label("body-reenters-itself", any(reenter[evs[i][3]] for i in order if evs[i][1] == "call"))
     ctx.label("failing-body-shared", any(fails[info[m][0][1]] and len(ix) > 1 for m, ix in members.items()))
     ctx.nontrivial(case, nontriv)
@@ -254,9 +274,9 @@ def check_timed(case, ctx):
 
 def strat_top(tier):
     op = st.one_of(
-        st.tuples(st.just("call"), st.sampled_from(["fn", "fn", "m1", "m2", "static"]), st.integers(0, 1), st.sampled_from(SPELL)).map(list),
+        st.tuples(st.just("call"), st.sampled_from(["fn", "fn", "twin", "m1", "m2", "static"]), st.integers(0, 1), st.sampled_from(SPELL)).map(list),
         st.tuples(st.just("value"), st.integers(0, 7)).map(list),
-        st.tuples(st.just("dirty"), st.sampled_from(["fn", "fn", "m1", "m2", "static"]), st.integers(0, 1), st.sampled_from(SPELL)).map(list),
+        st.tuples(st.just("dirty"), st.sampled_from(["fn", "fn", "twin", "m1", "m2", "static"]), st.integers(0, 1), st.sampled_from(SPELL)).map(list),
     )
     return st.fixed_dictionaries({"ops": st.lists(op, min_size=2, max_size=12 if tier == "quick" else 24),
                                   "fails": st.lists(st.sampled_from([False, False, True]), min_size=2, max_size=2)})
@@ -375,6 +395,8 @@ def reduce_timed(case):
         yield dict(case, reenter=[False, False])
     if any(case.get("self_dirty", [])):
         yield dict(case, self_dirty=[False, False])
+    if any(case.get("inner_catch", [])):
+        yield dict(case, inner_catch=[False, False])
 
 
 def reduce_top(case):
